@@ -43,9 +43,9 @@ def case(runner, r, base, i, profile, rich_ok, malformed, oc, ereqs, epend, sreq
     oc.stat("backend_" + model["backend"])
     if not malformed and not rich_ok:
         itf = genlib.build_iface(runner.kt, model["iface"])
-        q = engtpl.spec_request(model, tpl, itf, ut)
+        q = engtpl.spec_request(model, engrun.in_listing_order(tpl, os.path.join(base, "c%d" % i)), itf, ut)
         sreqs.append(q)
-        spend.append((info, fl, err, final))
+        spend.append((info, engrun.in_listing_order(fl, os.path.join(base, "c%d" % i), name=lambda f: f[0]), err, final))
         wreqs.append(dict(q, cmd="engwf"))
     kinds = set()
 
@@ -58,6 +58,15 @@ def case(runner, r, base, i, profile, rich_ok, malformed, oc, ereqs, epend, sreq
         walk(f["items"])
     for k in kinds:
         oc.stat("construct_" + k)
+    fordefaults = {}
+    for f in tpl:
+        for it in f["items"]:
+            if it["k"] == "for" and it["sparam"].get("t") == "tag":
+                fordefaults.setdefault(it["sparam"]["name"], []).append(it["sparam"]["dflt"])
+    if fordefaults:
+        oc.stat("construct_for_over_user_tag")
+    if any(len(set(v)) > 1 for v in fordefaults.values()):
+        oc.stat("construct_for_over_user_tag_with_competing_defaults")
     nontrivial = bool(kinds) and len(model["tt"]) >= 2
     oc.case(("tpl", repr(info["templates"]), repr(model["tt"]), repr(ut)), nontrivial=nontrivial)
 
@@ -104,7 +113,7 @@ def settle(oc, ereqs, epend, sreqs, spend, wreqs, what_engine="Model/Engine.gene
                 oc.violations.append(dict(what="output file %s differs from the reference expansion of the template" % f["name"],
                                           expected=f["text"], got=real, **info))
                 break
-    tot = dict(user_items=0, user_items_ok=0, blocks=0, blocks_ok=0, chunks=0, chunks_ok=0, pgt_lines=0, pgt_lines_ok=0, pgt_lines_with_alternative=0, pst_blocks=0, pst_blocks_ok=0, struct_blocks=0, struct_blocks_ok=0, files=0, files_second_filtering_ok=0, generator_inputs=0, generator_inputs_ok=0)
+    tot = dict(user_items=0, user_items_ok=0, blocks=0, blocks_ok=0, chunks=0, chunks_ok=0, pgt_lines=0, pgt_lines_ok=0, pgt_lines_with_alternative=0, pst_blocks=0, pst_blocks_ok=0, struct_blocks=0, struct_blocks_ok=0, files=0, files_second_filtering_ok=0, generator_inputs=0, generator_inputs_ok=0, generator_inputs_spec_ok=0)
     for a in lean_batch(wreqs):
         if "error" in a:
             continue
